@@ -836,7 +836,7 @@ fn run_c01(a: &Args) {
                     long_direct.push(format!(
                         "{{{},\"what\":\"one apply_keystream call of {} bytes ({} wide iterations) gives other bytes than the same data in 4 KiB calls on a second object seeked to the same position (all calls ok: {}); first differing byte {} (wide iteration {}): one call {}, 4 KiB calls {}\"}}",
                         ident, n, iters, ok4, at, at.saturating_sub(head) / 256 + 1,
-                        jstr(&hex(&buf[at.min(n - 1)..(at + 16).min(n)])), jstr(&hex(&b2[at.min(n - 1)..(at + 16).min(n)]))
+                        hex(&buf[at.min(n - 1)..(at + 16).min(n)]), hex(&b2[at.min(n - 1)..(at + 16).min(n)])
                     ));
                 }
                 // (i) windows of the one call's output against model and spec
@@ -964,6 +964,10 @@ fn gen_history(rng: &mut Rng, var: &Variant, mode: &str, maxops: usize, big: boo
 /// Boundary-directed histories (deterministic apart from the data bytes): every boundary the
 /// design lists, for the given variant. `sel` picks one of them.
 const NKINDS: usize = 14;
+/// `hist --long-apply 1` (default: runs of 200 histories or more): the first kind-12 history of the run ends with
+/// ONE apply of ~66 KiB. Its Coq case is ~460 KB of text (block oracle + output; ~3 s of coqc for that shard), so
+/// the short forced-back-end runs leave it out (C01 has a long call in every configuration).
+static LONG_APPLY: std::sync::atomic::AtomicBool = std::sync::atomic::AtomicBool::new(false);
 fn boundary_history(rng: &mut Rng, var: &Variant, sel: usize) -> Vec<Op> {
     let fill = |rng: &mut Rng, n: usize| Op::Apply(gen_data(rng, n));
     let b38: i128 = 1 << 38; // 2^32 blocks: end of the IETF stream, low counter word carry elsewhere
@@ -1144,8 +1148,8 @@ fn boundary_history(rng: &mut Rng, var: &Variant, sel: usize) -> Vec<Op> {
             ops.push(fill(rng, n2));
             ops.push(Op::Pos(Ty::U128));
             ops.push(fill(rng, 1));
-            if sub == 0 {
-                // first round only (one history per run): ONE apply of 64 KiB + 256 .. + 4255 bytes, continuing
+            if sub == 0 && LONG_APPLY.load(std::sync::atomic::Ordering::Relaxed) {
+                // first round only (one history per run, when `hist --long-apply` is on): ONE apply of 64 KiB + 256 .. + 4255 bytes, continuing
                 // mid-block: more than 256 iterations of the wide loop and more than 2^16 bytes in one call
                 let n3 = 65536 + 256 + rng.below(4000) as usize;
                 ops.push(fill(rng, n3));
@@ -1599,6 +1603,8 @@ fn run_hist(a: &Args) {
     let big = a.u64("big", 0) == 1;
     // chance in 1000 that an apply of a random history is 2-16 KiB
     let large_pm = a.u64("large-permille", 12);
+    let long_apply = a.u64("long-apply", if count >= 200 { 1 } else { 0 }) != 0;
+    LONG_APPLY.store(long_apply, std::sync::atomic::Ordering::Relaxed);
     // back end: 0 = whatever the CPU detection picks, 1..5 = SSE2, SSSE3, SSE4.1, AVX, AVX2 (hook H1)
     let level = a.u64("level", 0) as u8;
     let readback = force_level(level);
